@@ -40,6 +40,8 @@ type Opts struct {
 	BigDesc     int  // when > 0, transfers carry a description of about this many bytes (large blocks)
 	// SplitCoinbase: every fifth block's coinbase has further outputs after the award
 	SplitCoinbase bool
+	// CoinbaseFeeOutput: some of those coinbases also carry a fee ("$") output
+	CoinbaseFeeOutput bool
 }
 
 // DefaultOpts is the mix used by C01-style histories.
@@ -47,7 +49,7 @@ func DefaultOpts() Opts {
 	cfg := sn.DefaultConfig()
 	cfg.Quota = []string{"1000000", "1000000", "1000000", "1208925819614629174706176"}
 	return Opts{Cfg: cfg, MaxBlocks: 10, MaxDepth: 6, MaxChildren: 3, MaxTxs: 4, KV: true, Fees: true, Frozen: true,
-		Big: true, SharedTx: true, SplitCoinbase: true}
+		Big: true, SharedTx: true, SplitCoinbase: true, CoinbaseFeeOutput: false}
 }
 
 // BlockInfo is one node of the block tree.
@@ -305,6 +307,9 @@ func (t *Tree) Seal(parent int, proposer int, txs []*pb.Transaction, kinds []str
 		if t.sealed%10 == 3 {
 			f.AwardExtra = append(f.AwardExtra, sn.Out{To: sn.K((proposer + 2) % 4).Address, Amount: big.NewInt(0)},
 				sn.Out{To: sn.K(proposer).Address, Amount: big.NewInt(3)})
+			if t.Opts.CoinbaseFeeOutput {
+				f.AwardExtra = append(f.AwardExtra, sn.Out{To: "$", Amount: big.NewInt(5)})
+			}
 		}
 	}
 	blk, err := f.FormatBlock(pb0.ID, pb0.Height+1, sn.K(proposer), t.ts, txs, true)
